@@ -140,10 +140,60 @@ class ArrBuf:
         i = self._chk(i)
         return SymInt(z3.ZeroExt(W - 8, z3.Select(self.arr, T(i))), 0, 255)
 
+    COPY_ON_BYTEARRAY = False   # bytearray(ArrBuf) copies (needed where the copy is mutated); default: historical aliasing
+
+    def copy(self):
+        """bytes(buf) / bytearray(buf): a new buffer with the same content (the z3 term is shared, later
+        stores go to the copy only)."""
+        c = ArrBuf(self.name + "'", self.n)
+        c.arr = self.arr
+        c.init = self.arr
+        return c
+
+    def _bounds(self, sl):
+        """Concrete (start, stop) of a slice with Python's clamping rules; None when symbolic."""
+        if sl.step not in (None, 1):
+            raise core.Unsupported("stepped slice of an array-backed buffer")
+        start, stop = sl.start, sl.stop
+        if not all(x is None or isinstance(x, int) for x in (start, stop)):
+            return None
+        start, stop, _ = slice(start, stop).indices(self.n)
+        return start, max(start, stop)
+
+    def _long_slice(self, start, stop):
+        """buf[start:stop] with concrete bounds of any length: a new array-backed buffer whose cell i
+        is cell start+i of this one (z3 lambda; no enumeration)."""
+        c = ArrBuf(self.name + "[%d:%d]" % (start, stop), stop - start)
+        i = z3.BitVec("i!slice", W)
+        c.arr = z3.Lambda([i], z3.Select(self.arr, i + start))
+        c.init = c.arr
+        return c
+
+    def _set_slice(self, sl, v):
+        b = self._bounds(sl)
+        if b is None:
+            raise core.Unsupported("slice assignment to an array-backed buffer with symbolic bounds")
+        start, stop = b
+        n = stop - start
+        if len(v) != n:
+            raise core.Unsupported("slice assignment that would resize an array-backed buffer")
+        if isinstance(v, ArrBuf):
+            i = z3.BitVec("i!store", W)
+            src = v.arr
+            self.arr = z3.Lambda([i], z3.If(z3.And(i >= start, i < stop), z3.Select(src, i - start), z3.Select(self.arr, i)))
+            return
+        if n > 4096:
+            raise core.Unsupported("long slice assignment from a non-array source")
+        for k, x in enumerate(list(v)):
+            self[start + k] = x
+
     def _slice(self, sl):
         """buf[a:b] with a symbolic start and a constant length (bulk loads)."""
         if sl.step not in (None, 1):
             raise core.Unsupported("stepped slice of an array-backed buffer")
+        b = self._bounds(sl)
+        if b is not None and b[1] - b[0] > 64:
+            return self._long_slice(*b)
         start = 0 if sl.start is None else sl.start
         stop = self.n if sl.stop is None else sl.stop
         n = z3.simplify(T(stop) - T(start))
@@ -159,6 +209,8 @@ class ArrBuf:
         return SymBuf([SymInt(z3.ZeroExt(W - 8, z3.Select(self.arr, T(start) + k)), 0, 255) for k in range(n)])
 
     def __setitem__(self, i, v):
+        if isinstance(i, slice):
+            return self._set_slice(i, v)
         i = self._chk(i)
         if isinstance(v, int) and not 0 <= v < 256:
             raise ValueError("byte must be in range(0, 256)")
@@ -185,7 +237,7 @@ def bytearray_shim(x=(), *a):
     if isinstance(x, SymBuf):
         return SymBuf(x.items, x.read_log)
     if isinstance(x, ArrBuf):
-        return x
+        return x.copy() if ArrBuf.COPY_ON_BYTEARRAY else x
     if core._ENG is not None and not a and isinstance(x, (tuple, list)) and len(x) == 0:
         # an empty buffer created by code under proof (Encoder.buf) may later receive symbolic
         # bytes: start it as a SymBuf (a list-backed bytearray contract, exact on concrete bytes too)
@@ -212,11 +264,13 @@ class BytearrayShim(metaclass=_BytearrayMeta):
 
 class _BytesMeta(type):
     def __instancecheck__(cls, o):
-        return isinstance(o, (builtins.bytes, SymBuf))
+        return isinstance(o, (builtins.bytes, SymBuf)) or (isinstance(o, ArrBuf) and ArrBuf.COPY_ON_BYTEARRAY)
 
     def __call__(cls, x=b"", *a):
         if isinstance(x, SymBuf):
             return SymBuf(x.items, x.read_log)
+        if isinstance(x, ArrBuf):
+            return x.copy()
         if not isinstance(x, (int, builtins.bytes, builtins.bytearray, str)):
             items = list(x)
             if _has_sym(items):
